@@ -38,6 +38,8 @@ KF_FIRST_MEDIA = "C04:get_response_schema:first-media-type-schema-applied"
 KF_HDR_REF = "C04:response_headers_conformance:required-flag-read-off-unresolved-$ref"
 KF_CT_ERROR = "C04:validate_response:malformed-content-type-raises-ValueError"
 KF_UNDECODABLE = "C04:validate_response:undecodable-body-raises-UnicodeDecodeError"
+KF_WO_PAIR = "C04:to_json_schema:several-writeOnly-properties-forbidden-only-together"
+KF_WO_UNTYPED = "C04:to_json_schema:writeOnly-ignored-without-type-object"
 
 _REQ = requests.Request("GET", "http://127.0.0.1/x").prepare()
 
@@ -112,7 +114,7 @@ def ct_class(resp):
 def judge(chk, mechanism, raw, resp, m, impl, variants):
     wire = {"doc": raw, "resp": {**resp, "content": base64.b64encode(resp["content"]).decode()}}
     model, spec, wf = canon_model(m["model"]), m["spec"], m["wf"]
-    as_found, repaired = canon_model(m["asFound"]), canon_model(m["repaired"])
+    repaired = canon_model(m["repaired"])
     ci = canon_impl(impl)
     nontrivial = m["matched"] != "none" or fails(impl["status"])
     chk.case(mechanism, key=wire, nontrivial=nontrivial, sample={"in": wire, "impl": impl, "spec": spec})
@@ -126,14 +128,15 @@ def judge(chk, mechanism, raw, resp, m, impl, variants):
     # ---- correspondence: model in the variants the tree exhibits vs implementation
     for name in ("status", "content_type", "headers", "body", "all"):
         if ci[name] != model[name]:
-            chk.disagreement(f"{mechanism}:{name}", wire, model[name], impl[name])
+            chk.disagreement(mechanism, {"check": name, **wire}, model[name], impl[name])
     # ---- replay: the specification judges what the implementation reported
     asf = {k: v == "asFound" for k, v in variants.items()}
     rep = {"in": wire, "impl": impl, "spec": spec}
 
     def attribute(name, candidates, generic):
-        """known site only if the as-found model reproduces the implementation and the repaired model meets the spec"""
-        explained = as_found[name] == ci[name] and fails(repaired[name]) == spec[name]
+        """known site only if the model in the variants in force reproduces the implementation and the fully repaired
+        model meets the specification"""
+        explained = model[name] == ci[name] and fails(repaired[name]) == spec[name]
         if explained:
             for cond, sig in candidates:
                 if cond:
@@ -164,7 +167,7 @@ def judge(chk, mechanism, raw, resp, m, impl, variants):
                       f"(matched by {m['matched']} key)", rep)
         reported = True
     if ci["body"] == "error":
-        if not wf["ct_ok"] and asf["ctError"] and as_found["body"] == "error":
+        if not wf["ct_ok"] and asf["ctError"] and model["body"] == "error":
             chk.violation(KF_CT_ERROR, "validate_response lets a ValueError escape for a malformed Content-Type", rep)
         else:
             chk.violation("C04:response_schema_conformance:unexpected-exception",
@@ -318,7 +321,7 @@ def parse_corr(chk, n):
         except ValueError:
             ij = False
         if ij != m["json"]:
-            chk.disagreement("media_types.is_json", {"s": s}, m["json"], ij)
+            chk.disagreement("media_types.parse", {"s": s, "fn": "is_json"}, m["json"], ij)
 
 
 def coerce_corr(chk):
@@ -355,6 +358,49 @@ def undecodable_body(chk, variants):
                       {"in": {"doc": W_CT, "resp": {**resp, "content": base64.b64encode(resp["content"]).decode()}}, "impl": impl})
 
 
+def write_only(chk, variants):
+    """Implementation-level replay of the OpenAPI reading of `writeOnly` on the response side (the conversion to JSON
+    Schema is a parameter of the model, so there is no correspondence here): exhaustive over 1-3 writeOnly properties,
+    typed/untyped object schemas and all subsets of present properties."""
+    names = ["a", "b", "c"]
+    pairs, meta = [], []
+    for typed in (True, False):
+        for n_wo in (1, 2, 3):
+            props = {n: ({"type": "string", "writeOnly": True} if i < n_wo else {"type": "string"}) for i, n in enumerate(names)}
+            props["d"] = {"type": "string"}
+            schema = {"properties": props}
+            if typed:
+                schema["type"] = "object"
+            raw = _doc3({"200": {"description": "d", "content": {"application/json": {"schema": schema}}}})
+            for k in range(5):
+                for present in itertools.combinations(names + ["d"], k):
+                    body = json.dumps({n: "x" for n in present}).encode()
+                    pairs.append((raw, {"status": 200, "headers": {"Content-Type": "application/json"}, "content": body}))
+                    meta.append((typed, n_wo, [n for n in present if n in names[:n_wo]]))
+    outs = chk.driver().batch([("check", request_for(raw, resp, variants)) for raw, resp in pairs])
+    ops: dict = {}
+    for (raw, resp), m, (typed, n_wo, wo_present) in zip(pairs, outs, meta):
+        op = ops.setdefault(id(raw), load_operation(raw))
+        impl = run_impl(op, resp)
+        wire = {"doc": raw, "resp": {**resp, "content": base64.b64encode(resp["content"]).decode()}}
+        chk.case("writeOnly", key=wire, nontrivial=bool(wo_present), sample={"in": wire, "impl": impl["body"], "spec": m["spec"]["body"]})
+        chk.feature(f"writeOnly:typed={typed}:n={n_wo}:present={len(wo_present)}")
+        if m["spec"]["body"] != bool(wo_present):
+            raise InfraError(f"Lean validF(response) disagrees with the writeOnly reading on {wire}")
+        if fails(impl["body"]) == m["spec"]["body"]:
+            continue
+        rep = {"in": wire, "impl": impl, "spec": m["spec"]}
+        if not fails(impl["body"]) and not typed:
+            chk.violation(KF_WO_UNTYPED, "a response carrying a writeOnly property passes when the schema has `properties` "
+                          "but no `type: object`", rep)
+        elif not fails(impl["body"]) and typed and n_wo >= 2 and len(wo_present) < n_wo:
+            chk.violation(KF_WO_PAIR, f"a response carrying {len(wo_present)} of {n_wo} writeOnly properties passes", rep)
+        else:
+            chk.violation("C04:response_schema_conformance:writeOnly-verdict-differs",
+                          f"response_schema_conformance {'reports' if fails(impl['body']) else 'passes'} a body whose writeOnly "
+                          f"properties present are {wo_present}", rep)
+
+
 # ---- entry points --------------------------------------------------------------------------------------------------
 
 def run(chk):
@@ -377,31 +423,40 @@ def run(chk):
     chk.trusted += ["lean/SV/Spec/JsonSchema.lean (shared reference semantics; differentially checked against jsonschema "
                     "in this run)", "harness/gens/c04_docs.py wire_doc/wire_resp (document → model input)"]
     chk.proved += [
-        "expand_mem: n ∈ expand_status_code(k) ⇔ k covers n arithmetically, for every key over [0-9xX] of any length",
-        "status_exact: status_code_conformance fails ⇔ no explicit key, range key or default documents the status",
-        "parse_eq_refParse / parse facts: media_types.parse = type/subtype reading when no quote precedes the first ';'",
-        "content_type_exact, headers_exact, body_exact, verdict (repaired variants): checks fail ⇔ deviates, for every "
-        "validity oracle V, document and response satisfying the stated well-formedness hypotheses",
-        "…_asFound_partial: the same for the code as found under noRangeOnly / singleMedia / noRequiredRefHeader",
-        "witnesses (decide): range-only key, second media type, $ref'd required header, malformed Content-Type",
+        "expand_total / expand_mem / expand_2XX: n ∈ expand_status_code(k) ⇔ k covers n arithmetically, for every key over "
+        "[0-9xX] of any length (and 'default' covers nothing); explicit_key_covers: str(n) covers n",
+        "status_exact: status_code_conformance raises UndefinedStatusCode ⇔ no explicit key, range key or default "
+        "documents the status; never crashes on well-formed keys",
+        "lookup_repaired / lookup_asFound_partial: the lookup = explicit > range > default (as found: iff noRangeOnly)",
+        "parse_plain, parse_none_iff, parse_params_ignored, rangeMatch_covers: media_types.parse = type/subtype reading "
+        "when no quote precedes the first ';'",
+        "content_type_exact_repaired, headers_exact_repaired, body_exact_repaired, verdict_repaired: checks report ⇔ "
+        "deviates and no exception escapes, for every validity oracle V, well-formed document and response",
+        "verdict_asFound_partial: the same for the code as found under noRangeOnly ∧ singleMedia ∧ noRequiredRefHeader ∧ "
+        "ctNoCrash; verdict_asFound_full_false + asFound_range_only_miss / _body_miss, asFound_first_media_false_alarm / "
+        "_miss, asFound_ref_header_miss, asFound_malformed_content_type_crash (kernel-checked witnesses)",
     ]
     chk.partial += [
-        "JSON-Schema validation itself is a parameter V of the theorems (third-party jsonschema + converter); its "
-        "agreement with the reference semantics is sampled, not proved",
-        "undecodable (non-UTF-8) bodies are outside the model; checked by one implementation-level replay",
+        "JSON-Schema validation itself is a parameter V of the theorems (third-party jsonschema + converter.to_json_schema); "
+        "its agreement with the reference semantics validF(oas=response) is sampled on every case, not proved",
+        "undecodable (non-UTF-8) bodies and the writeOnly conversion are outside the model; checked by implementation-level "
+        "replay only (mechanisms undecodable-body, writeOnly)",
+        "per-aspect body theorem needs a readable Content-Type; with a missing/unreadable one only the overall verdict is "
+        "proved (the content-type aspect then reports)",
     ]
     chk.sampled_only += ["resolution of `$ref`'d response / header definitions", "Swagger 2.0 `produces` inheritance",
                          "run_checks' de-duplication of failures (compared as class sets)"]
     # 1. witnesses / corpus first
     run_pairs(chk, "witness", WITNESSES, variants)
     undecodable_body(chk, variants)
+    write_only(chk, variants)
     # 2. the pure helpers
     expand_corr(chk, chk.budget(400, 4000))
     parse_corr(chk, chk.budget(1500, 20000))
     coerce_corr(chk)
     # 3. generated (document, response) pairs
     pairs = []
-    for _ in range(chk.budget(900, 20000)):
+    for _ in range(chk.budget(1400, 20000)):
         raw = G.gen_doc(rng)
         for _ in range(4):
             pairs.append((raw, G.gen_response(rng, raw)))
